@@ -599,10 +599,16 @@ def _reference_trajectory(plan, n_steps: int):
         t_ret = stepper(state, t_k, t_k + dt)
         traj.append(np.array(state.data, copy=True))
         if not abs(t_ret - (t_k + dt)) <= 4 * EPS * max(abs(t_k + dt), dt):
-            raise AssertionError(f"reference stepper returned {t_ret!r} for one step from {t_k!r}")
-    if solver.info["steps"] != n_steps:
-        raise AssertionError("reference stepper miscounted")
+            raise OneStepMapBroken(f"asked to advance one step of dt={dt!r} from t={t_k!r} to {t_k + dt!r}, the stepper of solver "
+                                   f"{plan['solver']!r} (backend {plan['backend']}) returned t={t_ret!r}")
+        if solver.info["steps"] != k + 1:
+            raise OneStepMapBroken(f"after {k + 1} single-step calls the solver {plan['solver']!r} (backend {plan['backend']}) "
+                                   f"reports {solver.info['steps']} steps")
     return traj
+
+
+class OneStepMapBroken(Exception):
+    """The solver's own stepper does not perform 'one step of dt' when asked for exactly that (outside any controller)."""
 
 
 # ======================================================================================
@@ -725,7 +731,11 @@ def execute(plan: dict) -> dict:
     traj = None
     if fixed:
         n_ref = max(N, steps0) + 3
-        traj = _reference_trajectory(plan, n_ref)
+        try:
+            traj = _reference_trajectory(plan, n_ref)
+        except OneStepMapBroken as err:
+            fail("C07/one-step-map", str(err) + f" (t_start={t_start!r}); time and step accounting of every run is built on this map")
+            return _finish(plan, log, stats, viol, 0.0)
 
     exact = r0["autonomous"]
     _NA_ATOL[0] = _nonautonomous_atol(plan)
